@@ -24,7 +24,7 @@ Keep == UNCHANGED budget
 
 MCInit ==
   /\ prog \in Programs
-  /\ ext \in [Leaves -> {0, 1}]
+  /\ \E e \in [Leaves -> {0, 1}] : ext = [k \in Keys |-> IF k \in Leaves THEN e[k] ELSE 0]
   /\ mem = EmptyRows
   /\ st = [k \in Keys |-> "idle"] /\ chk = [k \in Keys |-> "no"] /\ task = [k \in Keys |-> NoTask]
   /\ epoch = 0 /\ target = None /\ cancelled = "no" /\ draining = FALSE /\ focus = NoFocus
@@ -35,7 +35,7 @@ MCInit ==
                cancels |-> MaxCancels, crashes |-> MaxCrashes]
 
 Between ==
-  \/ budget.mutates > 0 /\ Spend("mutates") /\ \E x \in Leaves, v \in {0, 1} : Mutate(x, v)
+  \/ budget.mutates > 0 /\ Spend("mutates") /\ \E x \in Keys, v \in {0, 1} : ext[x] # v /\ Mutate(x, v)
   \/ cancelled # "no" /\ ResetForBuild /\ Keep
   \/ budget.restarts > 0 /\ Spend("restarts") /\ \E np \in NextProgs, u \in WithDB, ver \in Vers : Restart(np, u, ver)
   \/ budget.builds > 0 /\ Spend("builds") /\ \E k \in Keys : BuildStart(k)
@@ -65,7 +65,7 @@ ClientStep ==
 
 Faults ==
   \/ budget.cancels > 0 /\ Running /\ Spend("cancels") /\ Cancel(TRUE)
-  \/ budget.crashes > 0 /\ Spend("crashes") /\ Crash
+  \/ budget.crashes > 0 /\ Spend("crashes") /\ (Crash \/ CrashAfterCommit)
   \/ ~alive /\ Keep /\ \E np \in NextProgs, u \in WithDB, ver \in Vers : Restart(np, u, ver)
 
 MCNext ==
